@@ -856,17 +856,15 @@ fn explore_literals(cfg: &Cfg, rep: &Reporter, label: &str, kdefs: &[KeyDef], ma
                 }
                 src.push('}');
                 let weight = wt((n as u64) * 1000 + src.len() as u64, &src);
-                // the model: pairs written left to right; a key written twice may keep any of the values written for it
+                // the model: pairs inserted left to right; a key written twice keeps the last value written for it
                 let mut expected = Model::new();
                 let mut alt: BTreeMap<u8, Vec<u8>> = BTreeMap::new();
                 for (k, v) in &pairs {
                     expected.insert(kdefs[*k].class, *v as u8);
-                    let e = alt.entry(kdefs[*k].class).or_default();
-                    if !e.contains(&(*v as u8)) {
-                        e.push(*v as u8);
-                    }
+                    // a literal is the sequence of its pairs inserted left to right: the last value written for a key stays
+                    alt.insert(kdefs[*k].class, vec![*v as u8]);
                 }
-                if alt.values().any(|a| a.len() > 1) {
+                if pairs.iter().enumerate().any(|(i, a)| pairs[..i].iter().any(|b| kdefs[b.0].class == kdefs[a.0].class && b.1 != a.1)) {
                     st.literals_dup += 1;
                 }
                 let tys: HashSet<&str> = pairs.iter().map(|p| kdefs[p.0].ty).collect();
@@ -1640,7 +1638,7 @@ pub fn run(cfg: &Cfg) -> i32 {
     ev_.sample(jo(vec![("kind", js("map-bfs")), ("program", js("{ } dup 10 1 insert dup \"v\" \"a\" insert")), ("checked", js("get of all keys, foreach pairs, equal? with `{ 10 1 \"v\" \"a\" }` both ways, old handle unchanged"))]));
     ev_.assumptions = vec![
         "key identity = typed, tag-blind equality (Int 1, Real 1.0 and Str \"1\" are three keys; a tagged 1 is the key 1)".into(),
-        "a map literal that writes one key twice may keep either written value (not stated by the property)".into(),
+        "a map literal is the sequence of its pairs inserted left to right (a key written twice keeps the last value)".into(),
         "`{ } foreach I loop` may leave the empty collection on the stack (not claimed by C12)".into(),
         "string `length` may count characters or bytes; `slice` on strings counts characters".into(),
         "`slice` clamps (pinned by test_str_slice / test_vec_slice); an index of magnitude >= 2^62 may be refused with an error instead".into(),
